@@ -140,9 +140,9 @@ def _reg_tmbinary(name, f):
 
 
 _reg_tmbinary("add", lambda X, Y: X + Y)
-_reg_tmbinary("radd", lambda X, Y: Y + X)
+_reg_tmbinary("radd", lambda X, Y: X.__radd__(Y))
 _reg_tmbinary("sub", lambda X, Y: X - Y)
-_reg_tmbinary("rsub", lambda X, Y: Y - X)
+_reg_tmbinary("rsub", lambda X, Y: X.__rsub__(Y))
 _reg_tmbinary("isequal", lambda X, Y: X.isequal(Y) if not isinstance(Y, (int, float)) else X.isequal(X.copy()))
 
 
@@ -225,7 +225,7 @@ def g_tmget(draw, tier):
 R.pred("tenmat_key_is_basic_slice")(lambda c: key2_label(c["key"]) == "key-basic-slice")
 
 
-@op("tenmat/getitem", g_tmget, quick=80, thorough=3000)
+@op("tenmat/getitem", g_tmget, quick=80, thorough=2000)
 def _(ctx, c):
     X = TM(c)
     key, _ = CT.build_key(c["key"])
